@@ -241,6 +241,41 @@ Proof.
   apply (sample_writer_metadata_read_in_full u Hu enc_block md5 p o rate bps ch total w chunks f md5_length Hnew Hrun C P1 P2 P3 B).
 Qed.
 
+(* ... and in full: the finished file is (what the metadata area's writer serialises from those typed values) ++ frames,
+   and the typed values satisfy the Rust type invariants and are canonical *)
+Theorem sample_writer_file_typed : forall (u : list N -> bool),
+  forall o rate bps ch total w chunks f,
+  options_wf o -> Forall plain (o_metadata o) -> seektables (o_metadata o) = 0%nat ->
+  sample_new p [] o rate bps ch total = Ok w ->
+  sample_run enc_block md5 p w chunks = Ok f -> counters_fit (f_enc f) ->
+  exists meta',
+    f_stream f = meta' ++ frames_bytes (f_enc f) /\
+    FlacMeta.BlockList.write_blocks (FlacMeta.Blocks.BStreaminfo (convM (f_si f)) :: map convB (f_blocks f)) = Ok meta' /\
+    Forall (FlacMeta.Blocks_level.ty_block u) (FlacMeta.Blocks.BStreaminfo (convM (f_si f)) :: map convB (f_blocks f)) /\
+    Forall FlacMeta.Blocks_level.canon_block (FlacMeta.Blocks.BStreaminfo (convM (f_si f)) :: map convB (f_blocks f)).
+Proof.
+  intros u o rate bps ch total w chunks f Hwf Hpl Hs0 Hnew Hrun Hfit.
+  destruct (sample_run_spec enc_block md5 p [] o rate bps ch total w chunks f Hwf Hnew Hrun Hfit)
+    as (cs & r & _ & I & S & Fn & Se & _ & _ & _ & Hfin).
+  assert (He0 : exists t, encoder_new p [] o rate bps ch t = Ok (sw_enc w)).
+  { pose proof Hnew as Hn. unfold sample_new in Hn. apply bind_ok in Hn. destruct Hn as (b' & Hb' & Hn).
+    apply bind_ok in Hn. destruct Hn as (t & _ & Hn). apply bind_ok in Hn. destruct Hn as (e0 & He0 & Hn).
+    assert (Ew : sw_enc w = e0) by (injection Hn as <-; reflexivity). rewrite Ew.
+    assert (Eb : b' = bps). { unfold signed_bit_count_32 in Hb'. destruct (_ && _); [injection Hb' as <-; reflexivity|discriminate]. }
+    subst b'. exists t. exact He0. }
+  destruct He0 as [t He0].
+  destruct (encoder_new_blocks_good p o rate bps ch t (sw_enc w) He0 Hpl Hs0) as [G1 G2].
+  assert (Eb : e_blocks (f_enc f) = e_blocks (sw_enc w)) by (destruct Se as (E & _); exact E).
+  rewrite <- Eb in G1, G2.
+  destruct (finished_blocks_good md5 md5_length md5_bytes p (f_enc f) f I S Fn Hfin G1 G2) as (A & B & C).
+  assert (Hparts : Forall plain (f_blocks f) /\ Forall points_ok (f_blocks f) /\ Forall contiguous_ok (f_blocks f)).
+  { repeat split; eapply Forall_impl; try exact A; intros b (X & Y & Z); assumption. }
+  destruct Hparts as (P1 & P2 & P3).
+  destruct (sample_writer_file_layout enc_block md5 p o rate bps ch total w chunks f md5_length Hnew Hrun) as (meta' & Hw & Hs).
+  exists meta'. split; [exact Hs|]. split; [exact (write_blocks_agree _ _ _ Hw C P1 P2 B)|].
+  exact (written_metadata_typed u _ _ _ Hw C P1 P2 P3).
+Qed.
+
 End SampleRuns.
 
 (* ---- the other two front-ends, by equality of runs (writers area, Cross_proofs) ---- *)
